@@ -105,9 +105,39 @@ class TimeForms:
         return form_at(du, nid, e, leaf)
 
 
-def _start_coeff_one(f: Optional[Poly]) -> Tuple[bool, str]:
+def _additive_start(e: ast.AST) -> Optional[bool]:
+    """Fallback when the polynomial form is not readable: is e a sum in which exactly one
+    term is a START-role name (coefficient +1) and no other term mentions one?
+    True / False / None (cannot tell)."""
+    terms = []
+
+    def flat(x, sign):
+        if isinstance(x, ast.BinOp) and isinstance(x.op, (ast.Add, ast.Sub)):
+            flat(x.left, sign)
+            flat(x.right, sign if isinstance(x.op, ast.Add) else -sign)
+        else:
+            terms.append((sign, x))
+    flat(e, 1)
+    starts = [(sg, t) for (sg, t) in terms if roles.role_of(t) == "START"]
+    others = [t for (sg, t) in terms if roles.role_of(t) != "START"]
+    mention = any(roles.role_of(y) == "START" for t in others for y in ast.walk(t))
+    if len(starts) == 1 and starts[0][0] == 1 and not mention:
+        return True
+    if mention or len(starts) > 1 or (len(starts) == 1 and starts[0][0] != 1):
+        return False
+    if not starts and not any(isinstance(y, ast.Call) for y in ast.walk(e)):
+        return False
+    return None
+
+
+def _start_coeff_one(f: Optional[Poly], e: Optional[ast.AST] = None) -> Tuple[Optional[bool], str]:
     if f is None:
-        return False, "form not readable"
+        r = _additive_start(e) if e is not None else None
+        if r is True:
+            return True, "START + (expression free of START), by additive structure"
+        if r is False:
+            return False, "the start time does not enter as a single additive term"
+        return False, "form not readable and the start time is not visibly a single additive term"
     rest = f - START
     if "START" in rest.symbols():
         return False, f"form {f}: the coefficient of START is not exactly 1"
@@ -185,7 +215,7 @@ def u1_u3(prog: Program, chk: Check) -> None:
                 if u.qual in PASS_THROUGH and isinstance(e, ast.Name) and e.id in PASS_THROUGH[u.qual]:
                     chk.add("U3", u, f"{label}: `{norm(e)}` forwarded unchanged", True, node=c)
                     continue
-                ok, why = _start_coeff_one(f)
+                ok, why = _start_coeff_one(f, e)
                 chk.add("U1", owner, f"{label} = {norm(e)} in {u.qual.split(':')[1]}", ok, why, c,
                         function=owner.qual.split(":")[1])
     # user callables inside the pass-through bodies get exactly the time parameter
@@ -241,7 +271,7 @@ def u1_u3(prog: Program, chk: Check) -> None:
             if (dotted(x) or "").endswith("_start_step"):
                 return Poly.sym("STEP0")
             return None
-        ok, why = _start_coeff_one(eval_form(r.value, leaf))
+        ok, why = _start_coeff_one(eval_form(r.value, leaf), r.value)
         chk.add("U1", u, f"label: return {norm(r.value)}", ok, why, r)
     for q in ("system_dynamics:compute_dynamics", "system_dynamics:compute_dynamics_with_field",
               "gradient:compute_gradient_and_dynamics"):
@@ -251,8 +281,12 @@ def u1_u3(prog: Program, chk: Check) -> None:
                 v = st.value
                 e = v.elts[0] if isinstance(v, (ast.List, ast.Tuple)) and len(v.elts) == 1 else v
                 nid = tf.du(u).node_of(st.value)
-                ok, why = _start_coeff_one(tf.form(u, nid, e))
-                chk.add("U1", u, f"label: times = {norm(v)}", ok, why, st)
+                # exact: all-steps labels are START + k*DT over the recorded index k, the
+                # final-only label is START + num_steps*DT
+                f = tf.form(u, nid, e)
+                wantf = START + Poly.sym("DT") * Poly.sym("K" if e is v else "NUM_STEPS")
+                chk.add("U1", u, f"label: times = {norm(v)}", f == wantf,
+                        f"form {f} (expected {wantf})", st)
     u = prog.unit("system_dynamics:compute_correlations_nt")
     for c in walk_local(u.node):
         if isinstance(c, ast.Call) and method_call(c) == ("ret_times", "append"):
@@ -266,7 +300,7 @@ def u1_u3(prog: Program, chk: Check) -> None:
                 if isinstance(x, ast.Call) and call_name(x) == "_parse_times":
                     return Poly.sym("IDX")
                 return None
-            ok, why = _start_coeff_one(form_at(du, nid, c.args[0], leafi))
+            ok, why = _start_coeff_one(form_at(du, nid, c.args[0], leafi), c.args[0])
             chk.add("U1", u, f"label: ret_times.append({norm(c.args[0])})", ok, why, c)
 
     # ------------------------------------------------- comparisons with a step
